@@ -299,30 +299,78 @@ pub fn orthogonal_centred(x: &[Vec<f64>]) -> bool {
     true
 }
 
-/// Least squares through the normal equations of the standardised (centred when `intercept`,
-/// unit-norm) columns, solved by Gaussian elimination; returns (coefficients, intercept).
-pub fn lstsq(x: &[Vec<f64>], y: &[f64], intercept: bool) -> Option<(Vec<f64>, f64)> {
+/// Least squares by modified Gram-Schmidt on the augmented matrix [Z | y] (Bjorck), Z = columns
+/// centred when `intercept` (this removes the collinearity with the constant column exactly) and
+/// scaled to unit norm; returns (coefficients, intercept, centred columns, centred y, column means, mean of y).
+pub struct Lsq {
+    pub beta: Vec<f64>,
+    pub b: f64,
+    pub xmean: Vec<f64>,
+    pub ymean: f64,
+    /// sum of squared residuals of the reference solution, evaluated on the centred data
+    pub sse: f64,
+    /// max_j ||z_j|| / min_j r_jj: estimate of the condition number of [X | 1]
+    pub cond: f64,
+}
+
+pub fn lstsq(x: &[Vec<f64>], y: &[f64], intercept: bool) -> Option<Lsq> {
     let n = x.len();
     let p = x[0].len();
-    let means: Vec<f64> = if intercept { (0..p).map(|j| x.iter().map(|r| r[j]).sum::<f64>() / n as f64).collect() } else { vec![0.0; p] };
+    let xmean: Vec<f64> = if intercept { (0..p).map(|j| x.iter().map(|r| r[j]).sum::<f64>() / n as f64).collect() } else { vec![0.0; p] };
     let ymean = if intercept { y.iter().sum::<f64>() / n as f64 } else { 0.0 };
-    let mut z: Vec<Vec<f64>> = x.iter().map(|r| (0..p).map(|j| r[j] - means[j]).collect()).collect();
-    let mut s = vec![0.0; p];
+    let zc: Vec<Vec<f64>> = (0..p).map(|j| x.iter().map(|r| r[j] - xmean[j]).collect()).collect(); // columns
+    let yc: Vec<f64> = y.iter().map(|v| v - ymean).collect();
+    let scale: Vec<f64> = zc.iter().map(|c| norm(c)).collect();
+    if scale.iter().any(|&s| s == 0.0) {
+        return None;
+    }
+    let mut q: Vec<Vec<f64>> = (0..p).map(|j| zc[j].iter().map(|v| v / scale[j]).collect()).collect();
+    let mut rmat = vec![vec![0.0; p]; p];
+    let mut zvec = vec![0.0; p];
+    let mut yy = yc.clone();
+    let mut rmin = f64::INFINITY;
     for j in 0..p {
-        s[j] = z.iter().map(|r| r[j] * r[j]).sum::<f64>().sqrt();
-        if s[j] == 0.0 {
+        let rjj = norm(&q[j]);
+        if rjj < 1e-13 {
             return None;
         }
-        for r in z.iter_mut() {
-            r[j] /= s[j];
+        rmin = rmin.min(rjj);
+        rmat[j][j] = rjj;
+        for v in q[j].iter_mut() {
+            *v /= rjj;
+        }
+        for k in j + 1..p {
+            let d: f64 = (0..n).map(|i| q[j][i] * q[k][i]).sum();
+            rmat[j][k] = d;
+            for i in 0..n {
+                q[k][i] -= d * q[j][i];
+            }
+        }
+        let d: f64 = (0..n).map(|i| q[j][i] * yy[i]).sum();
+        zvec[j] = d;
+        for i in 0..n {
+            yy[i] -= d * q[j][i];
         }
     }
-    let zt = refmath::transpose(&z);
-    let a = refmath::matmul(&zt, &z);
-    let yc: Vec<f64> = y.iter().map(|v| v - ymean).collect();
-    let rhs = refmath::matvec(&zt, &yc);
-    let u = refmath::solve(&a, &rhs)?;
-    let beta: Vec<f64> = (0..p).map(|j| u[j] / s[j]).collect();
-    let b = ymean - (0..p).map(|j| means[j] * beta[j]).sum::<f64>();
-    Some((beta, b))
+    // back substitution R u = z
+    let mut u = vec![0.0; p];
+    for j in (0..p).rev() {
+        let mut v = zvec[j];
+        for k in j + 1..p {
+            v -= rmat[j][k] * u[k];
+        }
+        u[j] = v / rmat[j][j];
+    }
+    let beta: Vec<f64> = (0..p).map(|j| u[j] / scale[j]).collect();
+    let b = ymean - (0..p).map(|j| xmean[j] * beta[j]).sum::<f64>();
+    let sse: f64 = (0..n).map(|i| yc[i] - (0..p).map(|j| zc[j][i] * beta[j]).sum::<f64>()).map(|r| r * r).sum();
+    // condition estimate of the uncentred problem: offset / spread enters through ||x_j|| / ||centred x_j||
+    let mut cond: f64 = 1.0 / rmin;
+    if intercept {
+        for j in 0..p {
+            let full = x.iter().map(|r| r[j] * r[j]).sum::<f64>().sqrt();
+            cond = cond.max(full / (scale[j] * rmin));
+        }
+    }
+    Some(Lsq { beta, b, xmean, ymean, sse, cond })
 }
